@@ -7,6 +7,7 @@ R-POS-IO      no cursor-relative I/O (seek/read/write through the shared file of
 R-UNSAFE-AUTO every `unsafe impl Send/Sync` on a type in the reader closure is vacuous per the
               trait solver (all fields already implement the auto trait).
 R-SYNC-FIELDS every field of every type in the reader closure is Sync per the trait solver.
+R-CONTENTION  a branch on try_lock & co. must apply the same value transformations on both outcomes.
 R-INTERIOR    interior-mutable state in reader-closure types is limited to lock-protected
               LimitedCache values and write-once cells; no `static mut` in the workspace.
 """
@@ -298,6 +299,57 @@ def rules(ck, P):
                              "interior-mutable field is a lock-protected LimitedCache / write-once cell (%s)" % f["t"],
                              "new shared mutable state in a reader type: %s — state shared between concurrent calls that is not a "
                              "transparent cache can make a call observe another call's data" % f["t"])
+    # ---------------- R-CONTENTION: what a call returns must not depend on whether a lock happened to be free
+    TRY = ("try_lock", "try_read", "try_write", "try_lock_owned", "try_borrow", "try_borrow_mut")
+    CACHE_OPS = {"get", "add", "get_or_set", "insert", "clone", "lock", "unwrap", "expect", "new", "Ok::{Ctor#0}", "Some::{Ctor#0}", "from", "into", "await", "ok", "map"}
+    n_try = 0
+
+    def summary(node, depth=0):
+        """multiset-free set of workspace value transforms applied below `node` (helpers inlined two levels)"""
+        out = set()
+        for y in ir.walk_nodes(node):
+            if y.get("k") in ("call", "mcall"):
+                nm = y.get("name") or (y.get("q") or "").rsplit("::", 1)[-1]
+                if nm in CACHE_OPS or nm in TRY:
+                    continue
+                q_ = y.get("rvq") or y.get("q") or ""
+                if P.is_workspace(q_):
+                    cb = P.fn(q_)
+                    if cb is not None and depth < 2 and cb.get("self_adt", "").endswith("Reader"):
+                        out |= summary(cb["body"], depth + 1)
+                    else:
+                        out.add(q_.rsplit("::", 2)[-2] + "::" + q_.rsplit("::", 1)[-1] if "::" in q_ else q_)
+        return out
+    for b in P.bodies:
+        if b.get("self_adt") not in closure or "::tests::" in b["q"]:
+            continue
+        for n in ir.walk_nodes(b["body"]):
+            if n.get("k") not in ("if", "match", "let"):
+                continue
+            if n.get("k") == "let" and "els" not in n:
+                continue
+            scrut = n["c"] if n.get("k") == "if" else (n["e"] if n.get("k") == "match" else n.get("init"))
+            if scrut is None or not ir.contains(scrut, lambda y: y.get("k") == "mcall" and y.get("name") in TRY):
+                continue
+            n_try += 1
+            if n.get("k") == "if":
+                branches = [n["then"], n.get("else", {"k": "block"})]
+            elif n.get("k") == "match":
+                branches = [a["body"] for a in n["arms"]]
+            else:
+                # let-else: the else block is the contended path; the uncontended path is the rest of the enclosing block
+                rest = None
+                for blk in ir.walk_nodes(b["body"]):
+                    if blk.get("k") == "block" and n in blk.get("stmts", []):
+                        i = blk["stmts"].index(n)
+                        rest = {"k": "block", "stmts": blk["stmts"][i + 1:], **({"tail": blk["tail"]} if "tail" in blk else {})}
+                branches = [n["els"], rest or {"k": "block"}]
+            sums = [summary(x) for x in branches]
+            same = all(s_ == sums[0] for s_ in sums)
+            ck.check(same, "R-CONTENTION", "%s|try#%d" % (b["q"], n_try), "both outcomes of the try-lock apply the same transformations to the value",
+                     "the result depends on whether a lock is free: the contended path applies %s, the uncontended path %s (difference %s) — concurrent calls can return what a call running alone never returns"
+                     % (sorted(sums[0]), sorted(sums[1]) if len(sums) > 1 else [], sorted(set.union(*sums) - set.intersection(*sums))), ir.loc(n))
+    ck.ok("R-CONTENTION", "census", "%d contention-dependent branches (try_lock & co.) in reader types; each must apply the same transformations on both outcomes" % n_try)
     for b in P.bodies:
         if b["dk"].startswith("Static") and "Mut" in b["dk"] and "Not" not in b["dk"]:
             ck.violation("R-INTERIOR", "static-mut|" + b["q"], "static mut item in workspace", ir.loc(b))
